@@ -96,7 +96,7 @@ func init() {
 															rq = SymReq{Browser: "b1", Method: []string{"GET", "POST"}[rng.Intn(2)], Route: "App", Arg: string(b),
 																Path: "/app/" + string(b) + "/" + tails[rng.Intn(len(tails))], Query: queries[rng.Intn(len(queries))]}
 															rawLiteral(&rq)
-															if k == *paths-1 && row%2 == 0 {
+															if k == *paths-1 && (row/2)%2 == 0 { // (row parity is the mount-pathed flag)
 																// the decision does not depend on the method or on headers the client chooses:
 																// a CORS preflight, a HEAD, a PATCH with override headers
 																rq.Method = "PUT"
